@@ -1,6 +1,8 @@
 PROP = {
     "lean_modules": ["GunYu.Props.C20", "GunYu.Props.C20Whole", "GunYu.Props.C20Rerun", "GunYu.Props.C20Worker",
-                     "GunYu.Props.C20Collide", "GunYu.Props.C20Conc"],
+                     "GunYu.Props.C20Collide", "GunYu.Props.C20Conc",
+                     "GunYu.Props.C20Expiry", "GunYu.Props.C20Loader", "GunYu.Props.C20Dist",
+                     "GunYu.Props.C20Fnv", "GunYu.Props.C20Empty", "GunYu.Props.C20Sys"],
     "audit_namespaces": ["GunYu.Props.C20"],
     "required_theorems": [
         "GunYu.Props.C20.replace_final",
@@ -95,13 +97,67 @@ PROP = {
         "GunYu.Props.C20.stream_take",
         "GunYu.Props.C20.conc_held_unchanged",
         "GunYu.Props.C20.conc_held_frozen",
+        # session 5: expiry in full (clock skew, past expiry, boundary, lock-step clocks), module values (Props/C20Expiry.lean)
+        "GunYu.Props.C20.exp_path_independent",
+        "GunYu.Props.C20.exp_none",
+        "GunYu.Props.C20.exp_skew",
+        "GunYu.Props.C20.exp_eq_iff_clocks_agree",
+        "GunYu.Props.C20.exp_past",
+        "GunYu.Props.C20.exp_boundary",
+        "GunYu.Props.C20.exp_never_persistent",
+        "GunYu.Props.C20.exp_alive_on_arrival",
+        "GunYu.Props.C20.exp_lockstep",
+        "GunYu.Props.C20.exp_lockstep_crossed",
+        "GunYu.Props.C20.replace_past_expiry",
+        "GunYu.Props.C20.replace_no_expiry_clears_ttl",
+        "GunYu.Props.C20.replace_past_expiry_bisync",
+        "GunYu.Props.C20.module_no_restore_plain",
+        "GunYu.Props.C20.module_no_restore_bisync",
+        "GunYu.Props.C20.module_bad_plain",
+        "GunYu.Props.C20.module_restore_plain",
+        # session 5: Group / Value discharged from C03's loader model (Props/C20Loader.lean)
+        "GunYu.Props.C20.loader_hash_group_value",
+        "GunYu.Props.C20.loader_plain_group",
+        "GunYu.Props.C20.loader_plain_value",
+        "GunYu.Props.C20.loader_string_value",
+        "GunYu.Props.C20.plain_cmds_onKey",
+        "GunYu.Props.C20.hash_cmds_onKey",
+        "GunYu.Props.C20.replace_final_loader",
+        "GunYu.Props.C20.fnv32a_eq",
+        "GunYu.Props.C20.ttl_eq",
+        "GunYu.Props.C20.stripTag_eq",
+        # session 5: the distributor with bounded pipes, a failed worker (Props/C20Dist.lean)
+        "GunYu.Props.C20.dist_conserves",
+        "GunYu.Props.C20.taken_prefix",
+        "GunYu.Props.C20.taken_all",
+        "GunYu.Props.C20.pipes_bounded",
+        "GunYu.Props.C20.blocked_send_full",
+        "GunYu.Props.C20.take_enabled",
+        "GunYu.Props.C20.abort_after_cancel",
+        "GunYu.Props.C20.no_deadlock",
+        "GunYu.Props.C20.error_surfaces",
+        # session 5, second part: distributor x workers as ONE system refining Sys (Props/C20Sys.lean)
+        "GunYu.Props.C20.wstep_addQ",
+        "GunYu.Props.C20.step_abs",
+        "GunYu.Props.C20.close_all",
+        "GunYu.Props.C20.move_refines",
+        "GunYu.Props.C20.absC_init",
+        "GunYu.Props.C20.csys_refines",
+        "GunYu.Props.C20.csys_boundary",
+        "GunYu.Props.C20.csys_held_unchanged",
+        "GunYu.Props.C20.csys_send_respects_cap",
+        # an empty collection (Props/C20Empty.lean), FNV-1a/32 (Props/C20Fnv.lean)
+        "GunYu.Props.C20.empty_replace_absent",
+        "GunYu.Props.C20.empty_fresh_absent",
+        "GunYu.Props.C20.fnv32a_is_fnv1a32",
+        "GunYu.Props.C20.fnv32a_lt",
     ],
     "expected_facts": {
-        "c20_distribute": '{ var e *rdb.BinEntry var ok bool var idx uint32 for { select { case e, ok = <-rdbPipe: if !ok { return nil } if e.Err != nil { return e.Err } if e.Done { fullDone.Store(true) return nil } if useBisyncGlobalLane && ro.bisyncRdbIsGlobalEntry(e) { select { case globalPipe <- e: case <-ctx.Done(): return ctx.Err() } continue } if len(e.Key) > 0 || (e.ObjectParser != nil && e.ObjectParser.Type() != rdb.RdbObjectFunction) { routeKey := e.Key if ro.cfg.ReplaceHashTag { routeKey = bytes.Replace(routeKey, []byte("{"), []byte(""), 1) routeKey = bytes.Replace(routeKey, []byte("}"), []byte(""), 1) } idx = util.FnvHash(routeKey) % pipeLen } else { idx = (idx + 1) % pipeLen } select { case pipes[idx] <- e: case <-ctx.Done(): return ctx.Err() } case <-ctx.Done(): return ctx.Err() } } }',
+        "c20_distribute": '{ var v0 *rdb.BinEntry var v1 bool var v2 uint32 for { select { case v0, v1 = <-rdbPipe: if !v1 { return nil } if v0.Err != nil { return v0.Err } if v0.Done { fullDone.Store(true) return nil } if useBisyncGlobalLane && ro.bisyncRdbIsGlobalEntry(v0) { select { case globalPipe <- v0: case <-ctx.Done(): return ctx.Err() } continue } if len(v0.Key) > 0 || (v0.ObjectParser != nil && v0.ObjectParser.Type() != rdb.RdbObjectFunction) { v3 := v0.Key if ro.cfg.ReplaceHashTag { v3 = bytes.Replace(v3, []byte("{"), []byte(""), 1) v3 = bytes.Replace(v3, []byte("}"), []byte(""), 1) } v2 = util.FnvHash(v3) % pipeLen } else { v2 = (v2 + 1) % pipeLen } select { case pipes[v2] <- v0: case <-ctx.Done(): return ctx.Err() } case <-ctx.Done(): return ctx.Err() } } }',
         "c20_workers": 'for i := 0; i < ro.cfg.ReplayRdbParallel; i++ { pp := pipes[i] usync.SafeGo(func() { if ro.bisyncEnabled() { errChan <- ro.rdbReplayBisync(ctx, reader.RunId(), reader.Left(), pp) return } errChan <- ro.rdbReplay(ctx, pp) }, func(i interface{}) { errChan <- fmt.Errorf("panic: %v", i) }) }',
-        "c20_route": 'if len(e.Key) > 0 || (e.ObjectParser != nil && e.ObjectParser.Type() != rdb.RdbObjectFunction) { routeKey := e.Key if ro.cfg.ReplaceHashTag { routeKey = bytes.Replace(routeKey, []byte("{"), []byte(""), 1) routeKey = bytes.Replace(routeKey, []byte("}"), []byte(""), 1) } idx = util.FnvHash(routeKey) % pipeLen } else { idx = (idx + 1) % pipeLen }',
-        "c20_loop_plain": 'select { case e, ok = <-pipe: if !ok { return nil } if e.Err != nil { return e.Err } if e.Done { return nil } case <-ctx.Done(): return nil } ;; filterOut := false ;; if ro.outFilter.FilterDb(int(e.DB)) { filterOut = true } else { if tdb, ok := ro.selectDB(currentDB, int(e.DB)); ok { currentDB = tdb err = redis.SelectDB(cli, uint32(currentDB)) if err != nil { return err } } if ro.outFilter.FilterKey(util.BytesToString(e.Key)) || ro.outFilter.FilterSlot(util.BytesToString(e.Key)) || ro.bisyncNsFilter.FilterKey(util.BytesToString(e.Key)) { filterOut = true } } ;; if filterOut { ro.rdbFilterCounterAdd(1) } else { ro.rdbSendCounterAdd(1) err := replay.Replay(e) if err != nil { return err } } ;; pingFn(filterOut)',
-        "c20_loop_bisync": 'select { case e, ok := <-pipe: if !ok || e.Done { return nil } if e.Err != nil { return e.Err } filterOut := false if ro.outFilter.FilterDb(int(e.DB)) { filterOut = true } else { if tdb, ok := ro.selectDB(currentDB, int(e.DB)); ok { currentDB = tdb if err := redispkg.SelectDB(cli, uint32(currentDB)); err != nil { return err } } if ro.outFilter.FilterKey(string(e.Key)) || ro.outFilter.FilterSlot(string(e.Key)) || isBisyncNamespaceKey(string(e.Key)) { filterOut = true } } if filterOut { ro.rdbFilterCounterAdd(1) continue } unit, skip, err := ro.buildBisyncRdbReplayUnit(cli, fullSyncOffset, e, state) if err != nil { return err } if skip || unit == nil { continue } ro.rdbSendCounterAdd(1) if err := ro.execBisyncRdbUnit(cli, runID, unit); err != nil { return err } case <-ctx.Done(): return nil }',
+        "c20_route": 'if len(v0.Key) > 0 || (v0.ObjectParser != nil && v0.ObjectParser.Type() != rdb.RdbObjectFunction) { v3 := v0.Key if ro.cfg.ReplaceHashTag { v3 = bytes.Replace(v3, []byte("{"), []byte(""), 1) v3 = bytes.Replace(v3, []byte("}"), []byte(""), 1) } v2 = util.FnvHash(v3) % pipeLen } else { v2 = (v2 + 1) % pipeLen }',
+        "c20_loop_plain": 'select { case e, ok = <-pipe: if !ok { return nil } if e.Err != nil { return e.Err } if e.Done { return nil } case <-ctx.Done(): return nil } ;; filterOut := false ;; if ro.outFilter.FilterDb(int(e.DB)) { filterOut = true } else { if tdb, ok := ro.selectDB(currentDB, int(e.DB)); ok { currentDB = tdb err = redis.SelectDB(cli, uint32(currentDB)) if err != nil { return err } } if ro.outFilter.FilterKey(util.BytesToString(e.Key)) || ro.outFilter.FilterSlot(util.BytesToString(e.Key)) || ro.bisyncNsFilter.FilterKey(util.BytesToString(e.Key)) || ro.bisyncRdbTargetReserved(e.Key) { filterOut = true } } ;; if filterOut { ro.rdbFilterCounterAdd(1) } else { ro.rdbSendCounterAdd(1) err := replay.Replay(e) if err != nil { return err } } ;; pingFn(filterOut)',
+        "c20_loop_bisync": 'select { case e, ok := <-pipe: if !ok || e.Done { return nil } if e.Err != nil { return e.Err } filterOut := false if ro.outFilter.FilterDb(int(e.DB)) { filterOut = true } else { if tdb, ok := ro.selectDB(currentDB, int(e.DB)); ok { currentDB = tdb if err := redispkg.SelectDB(cli, uint32(currentDB)); err != nil { return err } } if ro.outFilter.FilterKey(string(e.Key)) || ro.outFilter.FilterSlot(string(e.Key)) || isBisyncNamespaceKey(string(e.Key)) || ro.bisyncRdbTargetReserved(e.Key) { filterOut = true } } if filterOut { ro.rdbFilterCounterAdd(1) continue } unit, skip, err := ro.buildBisyncRdbReplayUnit(cli, fullSyncOffset, e, state) if err != nil { return err } if skip || unit == nil { continue } ro.rdbSendCounterAdd(1) if err := ro.execBisyncRdbUnit(cli, runID, unit); err != nil { return err } case <-ctx.Done(): return nil }',
         "c20_selectDB": '{ if originDB == -1 { return currentDB, false } targetDB := originDB if ro.cfg.TargetDb != -1 { targetDB = ro.cfg.TargetDb } else if tdb, ok := ro.cfg.TargetDbMap[originDB]; ok { targetDB = tdb } return targetDB, targetDB != currentDB }',
         "c20_fnv": '{ hash := fnv.New32a() hash.Write(data) return hash.Sum32() }',
     },
@@ -168,6 +224,15 @@ PROP = {
             "worker of the model - and c20route, which prints `multi` for a key seen on two connections): a change shows as a broken "
             "tie (no-failing-input-found) naming the pinned reading. Still violations on a collision cell: a MERGED value "
             "(collide-merged: none of the snapshot values) and, under ignore / error, any change of a cell the target held. "
+            "SESSION 5. Scope send-backpressure-fail (64 runs): a replay worker FAILS (policy error on a held key at stream position 0 / 3; a "
+            "module value that cannot be RESTOREd, under replace / ignore) while 20+ entries are still to be distributed, pipes of 1-2 entries "
+            "per worker (1-4 workers), slow target: the real SendRdb must RETURN - judged in VIRTUAL time (10 minutes of bubble clock with every "
+            "goroutine blocked = what `sendrdb-hang`), with the WORKER's error (what `error-lost` / `error-not-raised`), held cells untouched; every "
+            "back-pressure run now has the hang verdict. Scope exhaustive-expiry-boundary (108 per mode): expireAt = now, now + 1, now - 1 ms (the "
+            "bubble clock stands still) x policy x restore x string / split hash x key absent / held / held with TTL, codes 3-5 also in the random "
+            "generator. Keys that replaceHashTag rewrites INTO the tool's namespaces ({redis-gunyu-bisync:}x, {/redis-gunyu}y, "
+            "redis-gunyu-{checkpoint}z): withheld by rdbReplayBisync (/repo f9044ee) and by rdbReplay (/repo e867911) - op token tres= -> the "
+            "model's filterKey also asks the reserved prefixes of stripTag key; replayed only by RdbReplay.Replay called directly (mode plain). "
             "distinct_nontrivial = distinct cases with at least one pre-existing key",
     "trusted": [
         "Redis semantics of EXISTS/DEL/PEXPIRE/RESTORE[REPLACE]/BUSYKEY and of native data commands (create-or-append, TTL kept) "
@@ -181,7 +246,11 @@ PROP = {
         "the chunks of one key - and everything else that is replayed to the same target key - reach the same replay worker in "
         "snapshot order: PROVED on the model of the distributor (group_one_worker, route_same_target_key, queueOf_sublist, "
         "mem_queueOf; route = fnv32a(key the entry is replayed to) mod n, the empty key included) and monitored on the real SendRdb "
-        "(key-on-two-connections, c20route); what is left as an assumption is that a Go channel is FIFO",
+        "(key-on-two-connections, c20route); SESSION 5: also with BOUNDED pipes and the distributor as a process of its own "
+        "(Props/C20Dist.lean, dist_conserves: taken_i ++ pipe_i ++ still-to-route_i = queueOf i for every capacity and schedule; taken_prefix: "
+        "a worker consumes a prefix of the pre-filled pipe of Sys; no_deadlock / abort_after_cancel: a failed worker's full pipe does not "
+        "block the distributor for ever - the cancelled branch of its select is enabled - and error_surfaces); what is left as an assumption "
+        "is that a Go channel is FIFO and that `select` takes an enabled branch",
         "no writer OUTSIDE the tool touches a key between the probe and the writes; that the tool's own other workers never "
         "matter is proved (conc_boundary)",
         "bidirectional replay: a RESTORE refused with 'Bad data format' inside the unit's EXEC fails the replay (err-bad) with "
@@ -191,7 +260,11 @@ PROP = {
         "validateBisyncRdbExecReplies' tolerance is reached - observation); on the expansion paths a key created inside the window "
         "would be merged into (needs WATCH/Lua, outside a minimal repair) - assumption 'no other writer on the key during its replay'",
         "entry shapes: Group/Value (first bin first, later bins same key, commands on the key - `cmdKey` takes the second argument "
-        "for XGROUP) are hypotheses about loader output, not checked on real entries; since the second review streams (hand-built, "
+        "for XGROUP) were hypotheses about loader output; SESSION 5: PROVED of C03's byte-level model of rdb.Loader (Props/C20Loader.lean: "
+        "loader_hash_group_value - a hash table under ANY chunk threshold, no hypothesis left but the well-formedness of the file's key item; "
+        "loader_plain_group / loader_plain_value - every non-split string / list / set / zset / hash encoding, Value given a non-empty "
+        "expansion; streams: loader_stream_from_c03, contributed by C03's owner from execStream_onKey); what stays assumed is that C03's "
+        "loader model IS the loader (C03's tie) and the module / function entry kinds; since the second review streams (hand-built, "
         "with a consumer group, a pending entry and a consumer: XGROUP CREATE / XCLAIM), module values (type 7) and a 120-element "
         "list (pipelined expansion, flushed every 100) are generated: exhaustive scopes per mode + random cases",
         "replaceHashTag: modelled as replaying `retag e` (target key = key without its first '{' and first '}', key argument of the "
@@ -256,12 +329,54 @@ PROP = {
         "rewritten key (retag_group + retag_value, given every command has its key argument: args non-empty, XGROUP with >= 2) and "
         "hence replace_whole_retag (Nodup of the REWRITTEN keys); that the real code equals `replay (retag e)` is correspondence "
         "(D27, D28, D29 were found there)",
-        "Group / Value (shape of loader output) are hypotheses about what rdb.Loader delivers (C03's subject), checked on the "
-        "generated snapshots only through the request-by-request diff",
+        "Group / Value (shape of loader output): CLOSED in session 5 for hash tables (any threshold), all non-split value kinds and streams "
+        "by a bridge to C03's loader model (Props/C20Loader.lean, Props/C20StreamS5.lean; replace_final_loader = replace_final with no shape "
+        "hypothesis); Value.ne for an EMPTY collection: DECIDED with the real loader (scope exhaustive-empty-collection: linked list / set / hash table of "
+        "length 0 - the loader delivers one entry with an empty expansion; the tool sends EXISTS, DEL under replace on a held key, no data "
+        "command, PEXPIRE on nothing) and proved (Props/C20Empty.lean: empty_replace_absent - the key is ABSENT afterwards whatever it held, "
+        "empty_fresh_absent; ignore / error need Group only); the monitor's expectation for such a key is 'absent' (was: an empty object - a "
+        "false alarm of the monitor, repaired); on the RESTORE path the payload is sent as it is (the double stores it; a real server's "
+        "answer to an empty collection's payload is not modelled); STILL a hypothesis: module "
+        "entries (no expansion at all: covered by the module theorems instead), the float rendering of ZADD scores is a parameter (`fmt`); "
+        "the three separately transcribed functions are proved equal across the properties (fnv32a_eq, ttl_eq, stripTag_eq)",
         "a module value that cannot take the RESTORE path (restore off / above the bulk limit / refused) fails the replay with "
         "'module object requires RESTORE replay' whatever the policy and whether or not the key exists (plain path: before the probe): "
-        "modelled so (errModule), monitor: key unchanged; the policy theorems exclude it through Value",
-        "expiry: snapshot_exp_abs covers tool clock = target clock and a future expiry only",
+        "modelled so (errModule), monitor: key unchanged; SESSION 5: PROVED across the policies (Props/C20Expiry.lean: "
+        "module_no_restore_plain - errModule, NO request, target unchanged, any policy, key held or not; module_no_restore_bisync - ignore "
+        "skips / error stops on a held key first, errModule otherwise, at most the EXISTS probe, keyspace unchanged; module_bad_plain - payload "
+        "refused: RESTORE [+ RESTORE REPLACE] without effect, key unchanged under every policy; module_restore_plain - the policy table on the "
+        "RESTORE path) and run under back-pressure (a worker failing with err-module)",
+        "expiry: CLOSED in session 5 (Props/C20Expiry.lean) - the two clocks are parameters (exp_skew: the absolute expiry is shifted by "
+        "exactly the skew, the remaining lifetime is what the tool measured; exp_eq_iff_clocks_agree: equal clocks are NECESSARY for the "
+        "snapshot's absolute expiry), past expiry and the boundary expireAt = now (exp_past, exp_boundary: 1 ms on the target's clock, never "
+        "persistent - exp_never_persistent), both paths agree (exp_path_independent: RESTORE ttl / PEXPIRE - the code uses relative forms "
+        "only, never PEXPIREAT / ABSTTL), clocks advancing in lock-step between the chunks of a value (exp_lockstep, exp_lockstep_crossed), "
+        "replace_past_expiry / replace_no_expiry_clears_ttl; exercised: exhaustive-expiry-boundary. STILL PARTIAL: the code does not tell "
+        "'expired at load time' from 'expired at replay time' (the loader drops nothing; one rule) - stated, not a policy choice of the "
+        "model; the model of a RUN still has one `now` (the lock-step lemmas are about expAbs, not threaded through runPlain); the target "
+        "double does not expire a key during a run, so 'the key is gone 1 ms later' is the double's clock away from being observed",
+        "bounded pipes / a failed worker: COMPOSED (Props/C20Sys.lean): CSys = the distributor with bounded pipes + the n workers of Sys on one "
+        "keyspace (a worker on an empty OPEN pipe is blocked, everything else is Sys.step); csys_refines: for every capacity and schedule the "
+        "abstraction of the state reached (each pipe completed by what the distributor still holds for it; Move.close on every pipe when the "
+        "distributor leaves through the cancelled branch) is a state Sys reaches from Sys.init - keyspace, cancel flag and every worker field "
+        "but `queue` are equal; conc_boundary / conc_held_unchanged are re-stated over CSys (csys_boundary, csys_held_unchanged). Not "
+        "re-stated: conc_quiescent / conc_is_one_worker (they need 'every pipe fully consumed', i.e. Sys.cut = false = the distributor did not "
+        "abort: follows from csys_refines + absC.cut = derr, not written out); the parser goroutine "
+        "left blocked on its pipe after a failed SendRdb (rdb.ParseRdb has no context) is observed in every failing back-pressure run "
+        "(counter observed_parser_goroutine_left_blocked_after_failed_sendrdb) - a goroutine leak per failed full sync, C04's subject, reported",
+        "the disjunct bisyncRdbTargetReserved of BOTH worker loops (rdbReplayBisync: /repo f9044ee, rdbReplay: /repo e867911; token tres= in "
+        "every mode that runs a worker loop - wplain, bisync, send, sendbisync; mode plain calls RdbReplay.Replay directly, which has no "
+        "filter) is a function of the SOURCE key and therefore inside the "
+        "model's parameter filterKey; its meaning (reserved prefixes of stripTag key, replaceHashTag on) is modelled in the driver and the "
+        "harness's Filtered, its correctness is C10's / C13's",
+        "fnv: the model's fnv32a is PROVED to be the public FNV-1a/32 written on machine words (Props/C20Fnv.lean: fnv1a32 on UInt32, offset "
+        "basis 2166136261, prime 16777619, the published test vectors as examples; fnv32a_is_fnv1a32); the tie of util.FnvHash (hash/fnv "
+        "New32a) to it is the correspondence op c20fnv (300 / 3000 random keys, the empty key). Source facts c20_distribute / c20_route are "
+        "printed with the closure's locals alpha-renamed by declaration order (extract/c20.go c20Alpha): renaming a local no longer breaks "
+        "the tie, statement order and def-use stay pinned",
+        "gofn: nothing of C20 is regenerated by the translator - FnvHash is a hash/fnv library call, route / the policy switch / "
+        "bisyncRdbUseRestore read interfaces (BinEntry.ObjectParser) and do I/O between the decisions: outside gofn's subset (asked for in "
+        "the report: a stand-in for hash/fnv.New32a like sort.Search's, and method calls on an interface as opaque observations)",
         "two snapshot keys on one target key: see the first item (decided, generated, proved)",
     ],
 }
@@ -283,6 +398,10 @@ MANIFEST = {
             "entry is replayed to puts everything of one target key on one worker in order (D32 fixed), each worker's cells are what it "
             "alone would make of its pipe, under replace / ignore N workers = one worker, after a worker observed the cancel its cells "
             "never change] "
+            "[session 5: Group / Value PROVED of C03's loader model (hash tables under any chunk threshold, all non-split kinds, streams); the "
+            "expiry in full - clock skew as a parameter, past expiry and expireAt = now (1 ms, never persistent), both paths, lock-step "
+            "clocks; module values across the policies (errModule, key unchanged); the distributor with BOUNDED pipes: conservation for every "
+            "capacity and schedule, no deadlock on a failed worker's full pipe, its error surfaces - run on the real SendRdb] "
             "untouched - one DB, and several DBs with the worker's SELECT (stated on runWorker). RESTART (fresh worker, entry 0, the "
             "target a dead first attempt left; cut at any entry): replace converges to the snapshot; ignore keeps a partly written "
             "chunked key truncated and succeeds; error is stuck on the first written key - proved and run on the real code. The models of RdbReplay.Replay, buildBisyncRdbReplayUnit/execBisyncRdbUnit and the two worker loops are tied "
